@@ -14,6 +14,9 @@
                     have been closed and removed from the table meanwhile
        LoopCheck e  the state re-check after the add: a closed stream gets pendingData.clear() and
                     recvBuf.recycle() (under recycleMux) - the late-data path
+       SockStep e   an event from the socket (fallback data, close notification): while the queue is not empty
+                    the loop pops and looks up one element (as PollOne; LoopAdd / LoopCheck follow), then the
+                    item itself is delivered (62f988f: queued data first)
      user thread that owns stream object o:
        CloseStep o  Stream.close() one critical section at a time: CAS of the state / onStreamClose (table
                     delete under streamLock) / pendingData.clear (pendingData lock) / recvBuf.recycle
@@ -44,6 +47,8 @@ Record obj := {
   ocpc : nat }.                     (* progress of Stream.close(): 0 = not closing ... 6 = finished *)
 
 Inductive lstate := LIdle | LHave (o : nat) (p : pentry) | LAdded (o : nat).
+(* what travels over the socket: fallback data (heap bytes, no slots) and close notifications *)
+Inductive sitem := SData (sid : nat) (bytes : Z) | SClose (sid : nat).
 
 Record cst := {
   cfx : bool; cqcap : Z;
@@ -51,13 +56,14 @@ Record cst := {
   cq_srv : list qelem; cq_cli : list qelem;
   objs : nat -> obj; nobjs : nat;
   tbl : nat -> option nat;          (* session tables of both endpoints: key e sid -> current object *)
-  loop_c : lstate; loop_s : lstate }.
+  loop_c : lstate; loop_s : lstate;
+  sk_srv : list sitem; sk_cli : list sitem }.   (* events in flight on the socket, towards server / client (FIFO) *)
 
 Inductive clabel :=
 | COpen (sid : nat)
 | CWrite (o : nat) (new : list Z) (heap : bool)
 | CFlush (o : nat) (sizes : list Z) (wpos : nat)
-| PollOne (e : bool) | LoopAdd (e : bool) | LoopCheck (e : bool)
+| PollOne (e : bool) | LoopAdd (e : bool) | LoopCheck (e : bool) | SockStep (e : bool)
 | MoveTo (o : nat) | ReadK (o : nat) (kind : rkind) (k : Z) | CRelease (o : nat) | CReuse (o : nat)
 | CloseStep (o : nat)
 | CExtHold (new : list Z) | CExtReturn
@@ -70,44 +76,52 @@ Definition fresh_obj (e : bool) (sid : nat) : obj :=
 Definition cinit (f : bool) (n : nat) (qc : Z) : cst :=
   {| cfx := f; cqcap := qc; cfree := map Z.of_nat (seq 0 n); cext := []; cleaked := [];
      cq_srv := []; cq_cli := []; objs := fun _ => fresh_obj false O; nobjs := O;
-     tbl := fun _ => None; loop_c := LIdle; loop_s := LIdle |}.
+     tbl := fun _ => None; loop_c := LIdle; loop_s := LIdle; sk_srv := []; sk_cli := [] |}.
 
 (* ---- setters ---- *)
 Definition set_obj (o : nat) (v : obj) (s : cst) : cst :=
   {| cfx := cfx s; cqcap := cqcap s; cfree := cfree s; cext := cext s; cleaked := cleaked s;
      cq_srv := cq_srv s; cq_cli := cq_cli s; objs := updn (objs s) o v; nobjs := nobjs s;
-     tbl := tbl s; loop_c := loop_c s; loop_s := loop_s s |}.
+     tbl := tbl s; loop_c := loop_c s; loop_s := loop_s s; sk_srv := sk_srv s; sk_cli := sk_cli s |}.
 (* a new stream object registered in the table under its id *)
 Definition new_obj (v : obj) (s : cst) : cst :=
   {| cfx := cfx s; cqcap := cqcap s; cfree := cfree s; cext := cext s; cleaked := cleaked s;
      cq_srv := cq_srv s; cq_cli := cq_cli s; objs := updn (objs s) (nobjs s) v; nobjs := S (nobjs s);
-     tbl := updn (tbl s) (key (oe v) (osid v)) (Some (nobjs s)); loop_c := loop_c s; loop_s := loop_s s |}.
+     tbl := updn (tbl s) (key (oe v) (osid v)) (Some (nobjs s)); loop_c := loop_c s; loop_s := loop_s s; sk_srv := sk_srv s; sk_cli := sk_cli s |}.
 Definition set_tbl (k : nat) (v : option nat) (s : cst) : cst :=
   {| cfx := cfx s; cqcap := cqcap s; cfree := cfree s; cext := cext s; cleaked := cleaked s;
      cq_srv := cq_srv s; cq_cli := cq_cli s; objs := objs s; nobjs := nobjs s;
-     tbl := updn (tbl s) k v; loop_c := loop_c s; loop_s := loop_s s |}.
+     tbl := updn (tbl s) k v; loop_c := loop_c s; loop_s := loop_s s; sk_srv := sk_srv s; sk_cli := sk_cli s |}.
 Definition cadd_free (l : list Z) (s : cst) : cst :=
   {| cfx := cfx s; cqcap := cqcap s; cfree := cfree s ++ l; cext := cext s; cleaked := cleaked s;
      cq_srv := cq_srv s; cq_cli := cq_cli s; objs := objs s; nobjs := nobjs s;
-     tbl := tbl s; loop_c := loop_c s; loop_s := loop_s s |}.
+     tbl := tbl s; loop_c := loop_c s; loop_s := loop_s s; sk_srv := sk_srv s; sk_cli := sk_cli s |}.
 Definition cadd_leaked (l : list Z) (s : cst) : cst :=
   {| cfx := cfx s; cqcap := cqcap s; cfree := cfree s; cext := cext s; cleaked := cleaked s ++ l;
      cq_srv := cq_srv s; cq_cli := cq_cli s; objs := objs s; nobjs := nobjs s;
-     tbl := tbl s; loop_c := loop_c s; loop_s := loop_s s |}.
+     tbl := tbl s; loop_c := loop_c s; loop_s := loop_s s; sk_srv := sk_srv s; sk_cli := sk_cli s |}.
 Definition cset_free_ext (f e : list Z) (s : cst) : cst :=
   {| cfx := cfx s; cqcap := cqcap s; cfree := f; cext := e; cleaked := cleaked s;
      cq_srv := cq_srv s; cq_cli := cq_cli s; objs := objs s; nobjs := nobjs s;
-     tbl := tbl s; loop_c := loop_c s; loop_s := loop_s s |}.
+     tbl := tbl s; loop_c := loop_c s; loop_s := loop_s s; sk_srv := sk_srv s; sk_cli := sk_cli s |}.
 Definition cqueue_to (to_srv : bool) (s : cst) : list qelem := if to_srv then cq_srv s else cq_cli s.
 Definition cset_queue (to_srv : bool) (q : list qelem) (s : cst) : cst :=
   {| cfx := cfx s; cqcap := cqcap s; cfree := cfree s; cext := cext s; cleaked := cleaked s;
      cq_srv := if to_srv then q else cq_srv s; cq_cli := if to_srv then cq_cli s else q;
-     objs := objs s; nobjs := nobjs s; tbl := tbl s; loop_c := loop_c s; loop_s := loop_s s |}.
+     objs := objs s; nobjs := nobjs s; tbl := tbl s; loop_c := loop_c s; loop_s := loop_s s; sk_srv := sk_srv s; sk_cli := sk_cli s |}.
 Definition loop_of (e : bool) (s : cst) : lstate := if e then loop_s s else loop_c s.
 Definition set_loop (e : bool) (l : lstate) (s : cst) : cst :=
   {| cfx := cfx s; cqcap := cqcap s; cfree := cfree s; cext := cext s; cleaked := cleaked s;
      cq_srv := cq_srv s; cq_cli := cq_cli s; objs := objs s; nobjs := nobjs s; tbl := tbl s;
-     loop_c := if e then loop_c s else l; loop_s := if e then l else loop_s s |}.
+     loop_c := if e then loop_c s else l; loop_s := if e then l else loop_s s; sk_srv := sk_srv s; sk_cli := sk_cli s |}.
+
+Definition sock_to (to_srv : bool) (s : cst) : list sitem := if to_srv then sk_srv s else sk_cli s.
+Definition set_sock (to_srv : bool) (l : list sitem) (s : cst) : cst :=
+  {| cfx := cfx s; cqcap := cqcap s; cfree := cfree s; cext := cext s; cleaked := cleaked s;
+     cq_srv := cq_srv s; cq_cli := cq_cli s; objs := objs s; nobjs := nobjs s; tbl := tbl s;
+     loop_c := loop_c s; loop_s := loop_s s;
+     sk_srv := if to_srv then l else sk_srv s; sk_cli := if to_srv then sk_cli s else l |}.
+Definition push_sock (to_srv : bool) (i : sitem) (s : cst) : cst := set_sock to_srv (sock_to to_srv s ++ [i]) s.
 
 Definition oslots (v : obj) : list Z := osendb v ++ rslots (orecvb v) ++ opinned v ++ pslots (opend v).
 Definition lslots (l : lstate) : list Z := match l with LHave _ p => pslots [p] | _ => [] end.
@@ -126,7 +140,7 @@ Definition upd_obj (v : obj) (hf fb nt cl : bool) (sb : list Z) (sh : bool) (rb 
   {| oe := oe v; osid := osid v; oclosed := cl; ohalf := hf; oinfb := fb; onotify := nt;
      osendb := sb; osheap := sh; orecvb := rb; ocpin := cp; opinned := pn; opend := pe; ocpc := pc |}.
 
-(* ---- socket events (no slots travel over the socket): handled in one step by the peer's loop ---- *)
+(* ---- the own action of a socket event at the receiving loop (no slots travel over the socket) ---- *)
 Definition sock_data (e : bool) (sid : nat) (bytes : Z) (s : cst) : cst :=
   match tbl s (key e sid) with
   | Some o => let v := objs s o in
@@ -164,7 +178,7 @@ Definition c_flush (o : nat) (sizes : list Z) (wpos : nat) (s : cst) : option cs
   else if oclosed v || ohalf v then
     Some (cadd_free (osendb v) (set_obj o (sent v (oinfb v)) s))
   else if osheap v || oinfb v then
-    Some (sock_data (negb (oe v)) (osid v) (sumz sizes) (cadd_free (osendb v) (set_obj o (sent v true) s)))
+    Some (push_sock (negb (oe v)) (SData (osid v) (sumz sizes)) (cadd_free (osendb v) (set_obj o (sent v true) s)))
   else
     let used := firstn (S wpos) (osendb v) in
     let unused := skipn (S wpos) (osendb v) in
@@ -249,7 +263,7 @@ Definition c_close_step (o : nat) (s : cst) : option cst :=
              let s1 := set_obj o (with_cpc v 6) s in
              let t := negb (oe v) in
              if negb (onotify v) then Some s1
-             else if oinfb v || (Z.of_nat (length (cqueue_to t s)) >=? cqcap s) then Some (sock_close t (osid v) s1)
+             else if oinfb v || (Z.of_nat (length (cqueue_to t s)) >=? cqcap s) then Some (push_sock t (SClose (osid v)) s1)
              else Some (cset_queue t (cqueue_to t s ++ [{| q_sid := osid v; q_chain := []; q_closed := true |}]) s1)
   | _ => None
   end.
@@ -297,6 +311,23 @@ Definition c_loop_check (e : bool) (s : cst) : option cst :=
   | _ => None
   end.
 
+(* handleFallbackData / handleStreamClose of endpoint e (62f988f): the loop first hands every element that
+   is in the queue to its stream (consumeRecvQueue: the same pop + lookup, add, re-check steps as
+   handlePolling, interleavable with user threads like them), and only when the queue is empty performs
+   the socket item's own action *)
+Definition c_sock_step (e : bool) (s : cst) : option cst :=
+  match loop_of e s, sock_to e s with
+  | LIdle, i :: rest =>
+    match cqueue_to e s with
+    | _ :: _ => c_poll_one e s
+    | [] => match i with
+            | SData sid b => Some (sock_data e sid b (set_sock e rest s))
+            | SClose sid => Some (sock_close e sid (set_sock e rest s))
+            end
+    end
+  | _, _ => None
+  end.
+
 Definition c_ext_hold (new : list Z) (s : cst) : option cst :=
   if subsetb new (cfree s) && nodupb new then Some (cset_free_ext (minus_list (cfree s) new) (cext s ++ new) s) else None.
 
@@ -320,6 +351,7 @@ Definition cstep (s : cst) (l : clabel) : option cst :=
   | PollOne e => c_poll_one e s
   | LoopAdd e => c_loop_add e s
   | LoopCheck e => c_loop_check e s
+  | SockStep e => c_sock_step e s
   | MoveTo o => c_moveto o s
   | ReadK o kind k => c_readk o kind k s
   | CRelease o => c_release o s
